@@ -48,6 +48,17 @@ class Sym:
         return f"Sym({self.canon})"
 
 
+class BoolSym(Sym):
+    """the value of a boolean template expression bound to a name (`{% set cross = a != b %}`): printing / passing it on treats it as
+    an opaque symbol, but testing it later must decide the SAME atoms as testing the expression in place would"""
+
+    __slots__ = ("formula",)
+
+    def __init__(self, canon: str, formula):
+        super().__init__(canon)
+        self.formula = formula
+
+
 class SymDict(dict):
     """A dict some of whose keys are known constants; unknown keys are
     symbolic under the given canonical name."""
@@ -887,6 +898,13 @@ class Renderer:
                 return True, f_or(f1, f2)
             v2, f2 = self.decide(e.right, scope)
             return v2, f_or(f1, f2)
+        if isinstance(e, (nodes.Name, nodes.Getattr, nodes.Getitem)):
+            try:
+                pv = self.eval(e, scope, peek=True)
+            except Exception:
+                pv = None
+            if isinstance(pv, BoolSym):
+                return self.decide_formula(pv.formula, id(e)), pv.formula
         neg, leaf_canon, const = self.leaf(e, scope)
         if const is not _MISSING:
             return bool(const), ("c", bool(const))
@@ -896,8 +914,32 @@ class Renderer:
             return (not v), ("n", f)
         return v, f
 
+    def decide_formula(self, f, site) -> bool:
+        """truth value of a stored formula under the valuation (deciding its atoms like an in-place test would)"""
+        t = f[0]
+        if t == "a":
+            return self.val.atom(f[1], hash((site, f[1])))
+        if t == "c":
+            return f[1]
+        if t == "n":
+            return not self.decide_formula(f[1], site)
+        if t == "&":
+            return self.decide_formula(f[1], site) and self.decide_formula(f[2], site)
+        if t == "|":
+            return self.decide_formula(f[1], site) or self.decide_formula(f[2], site)
+        if t == "loop":
+            return bool(self.val.assigned.get("LOOP:" + f[1], 1))
+        raise ValueError(f)
+
     def formula(self, e, scope) -> tuple:
         """Formula of a test without consulting the valuation."""
+        if isinstance(e, (nodes.Name, nodes.Getattr, nodes.Getitem)):
+            try:
+                pv = self.eval(e, scope, peek=True)
+            except Exception:
+                pv = None
+            if isinstance(pv, BoolSym):
+                return pv.formula
         if isinstance(e, nodes.Not):
             return f_not(self.formula(e.node, scope))
         if isinstance(e, nodes.And):
@@ -1073,16 +1115,16 @@ class Renderer:
                     if isinstance(e, nodes.And):
                         return self.eval(e.right, scope) if l else l
                     return l if l else self.eval(e.right, scope)
-                return Sym(self.canon_expr(e, scope))
+                return BoolSym(self.canon_expr(e, scope), self.formula(e, scope))
             neg, c, const = self.leaf(e, scope) if not isinstance(e, nodes.Not) else (None, None, _MISSING)
             if isinstance(e, nodes.Not):
                 inner = self.eval(e.node, scope, peek=True)
                 if is_const(inner):
                     return not inner
-                return Sym("not(" + self.canon_val(inner) + ")")
+                return BoolSym("not(" + self.canon_val(inner) + ")", self.formula(e, scope))
             if const is not _MISSING:
                 return bool(const)
-            return Sym(("not(" + c + ")") if neg else c)
+            return BoolSym(("not(" + c + ")") if neg else c, ("n", ("a", c)) if neg else ("a", c))
         if isinstance(e, (nodes.Add, nodes.Concat)):
             parts = [self.eval(x, scope, peek) for x in ([e.left, e.right] if isinstance(e, nodes.Add) else e.nodes)]
             if all(is_const(p) for p in parts):
